@@ -18,7 +18,7 @@ EXTENDS Naturals, Sequences, FiniteSets, TLC
 
 CONSTANTS LabelClasses,      \* subset of {"plain","nested","numlike","numeric","kwbool","kwna"}
           ValueClasses,      \* subset of {"zero","one","int","frac","frac17","huge","neghuge","tiny","negtiny","inf","neginf"}
-          StdErrClasses,     \* subset of {"nan","short","frac17","inf"}
+          StdErrClasses,     \* subset of {"nan","short","frac17","inf","vanishing"}
           Formats,           \* {"csv","tsv","xlsx","ods"}
           MaxRows,           \* 3
           MaxRowsPair,       \* rows allowed when two columns deviate from the default
